@@ -27,7 +27,9 @@
       exactly when `0 < slm_end ≤ t_1/2`; `masked_steps_prefix` – masked steps form a prefix;
     * badly prepared atoms: `sv_step_matrix`, `sv_step_entry`, `sv_full_after_slm_end`, `darkSv_symm`,
       `mps_step_matrix`, `mps_step_entry` – the matrix used in step k is the dark filter of the callable
-      evaluated at that step's query time (never a matrix remembered from an earlier step).
+      evaluated at that step's query time (never a matrix remembered from an earlier step);
+    * qubit reordering in emu-mps: `mps_reordered_entry`, `siteAtoms_good`, `siteAtoms_complete`,
+      `unpermute_reordered` – entry (a,b) in site order is the register entry of the atoms the sites hold.
 -/
 import EmuVerif.Proofs.Interact
 
@@ -211,6 +213,32 @@ theorem mps_step_matrix (full masked : Mat α) (keep : List ℕ) (g : List α) (
 theorem mps_step_entry (m : Mat α) (keep : List ℕ) (i j : ℕ) (hi : i < keep.length) (hj : j < keep.length) :
     darkMps keep m i j = m keep[i] keep[j] := by
   simp [darkMps, List.getD_eq_getElem?_getD, List.getElem?_eq_getElem hi, List.getElem?_eq_getElem hj]
+
+/-- Qubit reordering: the entry between sites `a` and `b` of the matrix emu-mps uses is the register
+interaction of the atoms those sites hold. -/
+theorem mps_reordered_entry (m : Mat α) (n : ℕ) (perm : Option (List ℕ)) (bad : ℕ → Bool) (a b : ℕ)
+    (ha : a < (siteAtoms n perm bad).length) (hb : b < (siteAtoms n perm bad).length) :
+    darkMps (siteAtoms n perm bad) m a b = m (siteAtoms n perm bad)[a] (siteAtoms n perm bad)[b] :=
+  mps_step_entry m _ a b ha hb
+
+/-- No surviving site holds a badly prepared atom, and (for a permutation) every good atom is held. -/
+theorem siteAtoms_good (n : ℕ) (perm : Option (List ℕ)) (bad : ℕ → Bool) (x : ℕ)
+    (hx : x ∈ siteAtoms n perm bad) : bad x = false := by
+  simp only [siteAtoms, List.mem_filter] at hx
+  simpa using hx.2
+
+theorem siteAtoms_complete (n : ℕ) (p : List ℕ) (bad : ℕ → Bool) (x : ℕ)
+    (hperm : ∃ k < n, p.getD k 0 = x) (hgood : bad x = false) : x ∈ siteAtoms n (some p) bad := by
+  obtain ⟨k, hk, rfl⟩ := hperm
+  simp only [siteAtoms, List.mem_filter, List.mem_map, List.mem_range]
+  exact ⟨⟨k, hk, rfl⟩, by rw [hgood]; rfl⟩
+
+/-- Un-permuting with the inverse permutation gives back the register-order matrix. -/
+theorem unpermute_reordered (m : Mat α) (perm inv : List ℕ) (i j : ℕ)
+    (hi : perm.getD (inv.getD i 0) 0 = i) (hj : perm.getD (inv.getD j 0) 0 = j) :
+    darkMps inv (darkMps perm m) i j = m i j := by
+  show m (perm.getD (inv.getD i 0) 0) (perm.getD (inv.getD j 0) 0) = m i j
+  rw [hi, hj]
 
 /-! ### Non-vacuity -/
 
